@@ -387,3 +387,25 @@ Definition micro_spec (c : micro_case) : list (N * N) :=
 Definition check_micro (c : micro_case) : list (N * N) :=
   micro_model (mc_tables c) (fold_left (step (mc_tables c)) (mc_setup c) init_state) (mc_steps c) 0%N
   ++ micro_spec c.
+
+(* ---- the progress file under two or three real writers (statement-level scheduler) ----
+   steps: (writer that executed a create/write/rename/remove statement, or 1000 for a statement without
+   file-system effect; what a reader of the progress file saw afterwards: 0 the old record, w+1 the
+   complete record of writer w, 99 anything else - missing, truncated, spliced) *)
+Definition pw_class (s : pw_state) : N :=
+  match pw_read s with Some 99 => 0%N | Some w => N.of_nat (S w) | None => 99%N end.
+Fixpoint pw_model (m : staging) (s : pw_state) (steps : list (nat * N)) (n : N) : list (N * N) :=
+  match steps with
+  | [] => []
+  | (w, seen) :: rest =>
+      let s' := if Nat.eqb w 1000 then s else pw_step m s w in
+      (if N.eqb (pw_class s') seen then [] else [(n, 6%N)])
+      ++ (if N.eqb seen 99 then [(n, 7%N)] else [])        (* a reader must always find a complete record *)
+      ++ pw_model m s' rest (n + 1)%N
+  end.
+(* [all_ok]: every writer returned nil, i.e. no rename was lost *)
+Definition check_pw (m : staging) (writers : nat) (steps : list (nat * N)) (all_ok : bool) : list (N * N) :=
+  pw_model m (pw_init writers) steps 0%N
+  ++ (if all_ok then [] else [(N.of_nat (length steps), 7%N)])
+  ++ (let s := fold_left (fun s x => if Nat.eqb (fst x) 1000 then s else pw_step m s (fst x)) steps (pw_init writers) in
+      if Bool.eqb (negb (pw_lost s)) all_ok then [] else [(N.of_nat (length steps), 6%N)]).
